@@ -499,6 +499,7 @@ package table
 //@   results at, err
 //@   requires m != nil && m.store != nil && m.nh != nil
 //@   ensures [C14.byid.found] err == serrors.ErrTableNotFound ==> forall n string :: has(m.lastTables, n) ==> m.lastTables[n].ClusterID != id
+//@   ensures [C14.byid.found] errIs(err, serrors.ErrTableNotFound) ==> forall n string :: has(m.lastTables, n) ==> m.lastTables[n].ClusterID != id      // (as callers test it: errors.Is)
 //@   ensures [C14.byid.sound] err == nil ==> exists n string :: has(m.lastTables, n) && m.lastTables[n].ClusterID == id && at.Table == m.lastTables[n]
 //@   modifies m.lastTables
 //@   loop 0 invariant tables == m.lastTables && tables != nil && m.nh != nil
@@ -782,3 +783,56 @@ package table
 //@   maypanic
 //@   ensures [C14.manager.fields+C13+C15] result != nil && fresh(result) && result.nh == nh && result.store == store && result.cfg.NodeID == cfg.NodeID && result.members == members && result.closed != nil && !chanClosed(result.closed) && result.log != nil && result.reconcileInterval > 0
 //@   modifies nothing
+
+// ---------------------------------------------------------------- cleanup of deleted tables' data (C14)
+
+// cleanup: data is removed - from the node host and from the state machine directory - only for a
+// cleanup record whose shard is NOT in the catalogue as just listed (a recreated or restored table
+// that got the id back in the meantime keeps its data), exactly the directory the record names is
+// removed, for this node's replica, and the record deleted afterwards is that very record at the
+// version it was read with.
+//@ import vfs "github.com/cockroachdb/pebble/vfs"
+//@ func dragonboat.(*NodeHost).SyncRemoveData
+//@   assumed
+//@   params nh, ctx, shardID, replicaID
+//@   modifies nothing
+//@ func json.Unmarshal<*table.Cleanup>
+//@   assumed
+//@   params data, v
+//@   modifies *asType(v, *table.Cleanup)
+//@ func (*Manager).cleanup
+//@   maypanic
+//@   requires m != nil && m.store != nil && m.nh != nil && m.log != nil && m.cfg.Table.FS != nil
+//@   before dragonboat.(*NodeHost).SyncRemoveData assert [C14.cleanup.guard] shardID == c.ClusterID && replicaID == m.cfg.NodeID && forall n string :: has(m.lastTables, n) ==> m.lastTables[n].ClusterID != shardID
+//@   before vfs.FS.RemoveAll assert [C14.cleanup.path] name == c.SMDataPath && forall n string :: has(m.lastTables, n) ==> m.lastTables[n].ClusterID != c.ClusterID
+//@   before table.store.Delete assert [C14.cleanup.record] key == l.Key && ver == l.Ver
+//@   modifies m.lastTables, m.store.nwk, m.store.wVal, m.store.wVer, m.store.wDel, m.store.wPrevHas, m.store.wPrev, m.cfg.Table.FS.vHas, m.cfg.Table.FS.dHas, m.cfg.Table.FS.vCur, m.cfg.Table.FS.dCur, world.clock
+//@   loop 0 invariant m.store == old(m.store) && m.nh == old(m.nh) && m.log == old(m.log) && m.cfg.Table.FS == old(m.cfg.Table.FS) && -1 <= rangeindex && rangeindex < len(ls)
+// cleanupLoop: like the reconcile loop, the periodic cleanup ends only with the manager
+//@ func (*Manager).cleanupLoop
+//@   maypanic
+//@   requires m != nil && m.log != nil && m.store != nil && m.nh != nil && m.cfg.Table.FS != nil && allocated(m.closed)
+//@   modifies m.lastTables, m.store.nwk, m.store.wVal, m.store.wVer, m.store.wDel, m.store.wPrevHas, m.store.wPrev, m.cfg.Table.FS.vHas, m.cfg.Table.FS.dHas, m.cfg.Table.FS.vCur, m.cfg.Table.FS.dCur, world.clock
+//@   loop 0 invariant m.log != nil && m.store != nil && m.nh != nil && m.cfg.Table.FS != nil && t != nil && t.C != m.closed && m.closed == old(m.closed)
+//@   loop 0 leave [C14.cleanup.alive] world.lastSel == m.closed
+// Close ends both service loops: it closes the channel they select on
+//@ func (*Manager).Close
+//@   requires m != nil && !chanClosed(m.closed) && m.closed != nil
+//@   ensures [C14.close] chanClosed(m.closed)
+//@   ensures forall c Ref :: c != m.closed ==> chanClosed(c) == old(chanClosed(c))
+//@   modifies family(CH_closed)
+// Start: both service loops are started, once each (ghost counters of the spawn model)
+//@ ghostfield any.nrecon Int
+//@ ghostfield any.nclean Int
+//@ spawn (*Manager).reconcileLoop
+//@   params m
+//@   ensures m.nrecon == old(m.nrecon) + 1
+//@   modifies m.nrecon
+//@ spawn (*Manager).cleanupLoop
+//@   params m
+//@   ensures m.nclean == old(m.nclean) + 1
+//@   modifies m.nclean
+//@ func (*Manager).Start
+//@   requires m != nil && m.log != nil && m.store != nil && m.nh != nil && m.cfg.Table.FS != nil && allocated(m.closed)
+//@   ensures [C14.start.loops] m.nrecon == old(m.nrecon) + 1 && m.nclean == old(m.nclean) + 1
+//@   modifies m.nrecon, m.nclean
